@@ -288,6 +288,91 @@ theorem WF.contDel_link {g g' : Graph} (h : WF g) {p : Path} {cn : String} {c : 
                 rw [links_delLink_self, hent]
         · cases hres
 
+/-! ## ids never change -/
+
+theorem h5Delete_getAttr {g g' : Graph} {grp parent depth : Nat} {lname x : String} {die : Bool}
+    (hres : h5Delete g grp parent lname depth x die = .ok g') (k : Nat) (a : String) :
+    g'.getAttr k a = g.getAttr k a := by
+  unfold h5Delete at hres
+  simp only at hres
+  split at hres
+  · cases hres
+  · split at hres
+    · cases hres
+    · split at hres
+      · cases hres; rw [getAttr_delLink, getAttr_delLink]
+      · cases hres; rw [getAttr_delLink]
+
+/-- deleting / unlinking changes no attribute of any node -/
+theorem contDel_getAttr {g g' : Graph} {c : Cont} {key : Key} (hres : contDel g c key = .ok g')
+    (k : Nat) (a : String) : g'.getAttr k a = g.getAttr k a := by
+  unfold contDel at hres
+  simp only at hres
+  split at hres
+  · cases hres
+  · split at hres
+    · cases hres
+    · split at hres
+      all_goals first
+        | (cases hres; exact getAttr_deleteAll ..)
+        | (split at hres
+           all_goals first
+             | (cases hres; first | exact getAttr_deleteAll .. | rfl)
+             | exact h5Delete_getAttr hres k a
+             | cases hres)
+
+/-- linking changes no attribute of any node -/
+theorem contAppend_getAttr {g g' : Graph} {c : Cont} {key : Key} (hres : contAppend g c key = .ok g')
+    (k : Nat) (a : String) : g'.getAttr k a = g.getAttr k a := by
+  obtain ⟨_, _, _, _, e⟩ := contAppend_ok hres
+  rw [e]
+  unfold createLinkIn
+  split
+  · rw [getAttr_addLink, getAttr_delLink, getAttr_ensureGroup]
+  · rw [getAttr_addLink, getAttr_ensureGroup]
+
+/-- an attribute setter never writes `entity_id` -/
+theorem setAttrOp_entityId {g g' : Graph} {p : Path} {attr : String} {v : Option String}
+    (hres : setAttrOp g p attr v = .ok g') (k : Nat) : g'.entityId k = g.entityId k := by
+  unfold setAttrOp at hres
+  cases hr : resolve g rootLoc p with
+  | none => simp [hr] at hres
+  | some o =>
+    simp only [hr] at hres
+    split at hres
+    · cases hres
+    · rename_i hal
+      have hal' : attrAllowed (kindOf g o.key) attr = true := by simpa using hal
+      have hne : attr ≠ "entity_id" := by
+        intro e; subst e; simp [attrAllowed] at hal'
+      split at hres
+      · cases hres
+      · split at hres <;> cases hres <;>
+          exact getAttr_setAttr_attr_ne g o.key k _ (Ne.symm hne)
+
+/-- creating a block changes the id of no existing node -/
+theorem WF.createBlock_entityId {g g' : Graph} (h : WF g) {name type : String}
+    (hnf : ∀ m, g.nextId ≤ m → name ≠ idStr m) (hres : Store.createBlock g name type = .ok g')
+    (k : Nat) (hk : k ∈ keys g) : g'.entityId k = g.entityId k := by
+  obtain ⟨_, _, _, _, hne⟩ := h.createBlock_new hnf hres
+  have hf := h.ensFacts "data" h.root
+  rw [entityId_eq, hne.attrs_old k (hf.keys_mono k hk), hf.attrs]; rfl
+
+/-- creating a section changes the id of no existing node -/
+theorem WF.createSection_entityId {g g' : Graph} (h : WF g) {p : Path} {name type : String}
+    (hnf : ∀ m, g.nextId ≤ m → name ≠ idStr m) (hres : Store.createSection g p name type = .ok g')
+    (k : Nat) (hk : k ∈ keys g) : g'.entityId k = g.entityId k := by
+  obtain ⟨o, _, _, hr, _, _, hne⟩ := h.createSection_new hnf hres
+  cases p with
+  | nil =>
+    have hk' : k ∈ keys (sectionBase g [] o.key) := hk
+    rw [entityId_eq, hne.attrs_old k hk']; rfl
+  | cons s ps =>
+    have hf := h.ensFacts "sections" (h.resolve_root_key hr)
+    have hk' : k ∈ keys (sectionBase g (s :: ps) o.key) := hf.keys_mono k hk
+    rw [entityId_eq, hne.attrs_old k hk']
+    exact hf.attrs k _
+
 /-! ## a legal new name is accepted (blocks) -/
 
 theorem filter_ne_append_new {entries : List (String × Nat)} {name : String} {k : Nat}
